@@ -258,6 +258,8 @@ def ref_lang(ranges, offers):
     res = basic_best(items, offers, l_match)
     if res is not None:
         return res
+    refused = {o for o, sp, Q in ref_info(ranges, offers, l_spec, l_match) if Q is not None and max(Q) == 0}
+    offers = [o for o in offers if o not in refused]
     prim = [(re.split("[-_]", r, maxsplit=1)[0], q) for r, q in items]
     res = basic_best(prim, offers, lambda r, o: r == "*" or r.lower() == o.lower())
     if res is not None:
@@ -301,6 +303,13 @@ def check_lang(rec, http, DS, ranges, offers):
         gd = acc.best_match(offers, default=dflt)
         if gd != (got if got is not None else dflt):
             rec.violation("C17/language:default-argument-changes-the-choice", f"{hdr!r} offers {offers!r}: best_match(default={dflt!r}) = {gd!r}, without default {got!r}", case, monitor="evaluator")
+            return
+    # an offer the client refused (its most specific matching range - exact tag or '*' - has q=0) is never chosen, not
+    # through a primary-tag fallback either
+    if got is not None:
+        gi = [x for x in ref_info(ranges, offers, l_spec, l_match) if x[0] == got]
+        if gi and gi[0][2] is not None and max(gi[0][2]) == 0:
+            rec.violation("C17/language:chose-q0-or-unmatched-offer", f"{hdr!r} offers {offers!r}: chose {got!r}, which the header refuses with q=0", case, monitor="evaluator")
             return
     if lang_unambiguous(ranges, offers):
         exp = ref_lang(ranges, offers)
